@@ -2,9 +2,11 @@
   C04 — property theorems only. Change detection is exact.
 
   `a ≈ b` (`Equiv`) is the equivalence the real `diffs.diff` decides: Python `==` (`J.pyEq`, so
-  `True == 1`, dict key order irrelevant) modulo object keys whose value is `null` (`J.dropNulls`;
-  Kubernetes never stores such keys, `diff_iter(None, None)` yields nothing). Both deviations from
-  plain structural equality are visible below and shown necessary by witnesses.
+  `True == 1`, dict key order irrelevant) modulo object keys whose value is `null` (`J.dropNulls`:
+  `diff_iter(None, None)` yields nothing, so a null-valued key and an absent key are the same to it).
+  Both deviations from JSON equality are real deviations from the property text — a field may change
+  between `1` and `true` (finding F7), and with nullable / preserve-unknown fields between `null` and
+  absent (finding C04-F10) — they are visible below and proved by witnesses.
 
   All theorems quantify over ALL well-formed JSON values (`J.WF`: object keys unique — what
   `json.loads` produces); there is no bound on nesting or size.
@@ -12,7 +14,7 @@
 import Kopf.Model.C04_Diff
 import Kopf.Model.C04_Essence
 import Kopf.Model.C04_Guards
-import Kopf.Lemmas.C04_OwnKeyMulti
+import Kopf.Lemmas.C04_Marker
 namespace Kopf.C04
 open Kopf Kopf.J
 
@@ -78,8 +80,10 @@ theorem bool_int_witness :
     ∧ (J.obj [("spec", .obj [("a", .num 1)])] == J.obj [("spec", .obj [("a", .bool true)])]) = false := by
   decide
 
-/-- null ≡ absent: a key with value `null` and a missing key are not distinguished (Kubernetes'
-    own semantics, part of `≈`), also below the root; inside arrays nulls do count. -/
+/-- C04-F10, null ≡ absent: a key with value `null` and a missing key are not distinguished, also
+    below the root (inside arrays nulls do count): the strict reading "empty only if nothing differs"
+    is false of the code here as well (Kubernetes does store nulls for nullable /
+    preserve-unknown fields). -/
 theorem null_absent_witness :
     diff (.obj [("a", .null)]) (.obj []) [] = []
     ∧ diff (.obj [("a", .obj [("b", .null)])]) (.obj [("a", .obj [])]) [] = []
@@ -92,18 +96,27 @@ example : ¬ ((J.obj [("a", .num 1)]) ≈ (J.obj [("a", .num 2)])) := by unfold 
 
 /-! ## the essence: what never counts -/
 
-/-- **The status stanza never counts**: setting `status` to anything leaves the essence unchanged,
-    for every storage configuration (`cfg` arbitrary), every body, every set of handler fields that
-    stay out of `status`. (Handler fields inside `status` are excluded — see F8.) -/
+/-- **The status stanza never counts**: setting `status` to anything (or removing it) leaves the
+    essence unchanged, for every storage configuration, every body and every set of handler fields
+    whose own values are the same before and after (`hx`: e.g. `@on.field('status.phase')` while
+    kopf writes `status.kopf.*`). The guard is the gap: a handler field whose value the write changes
+    is *meant* to count — unless the write is the framework's own (F8, `extra_status_witness`). -/
 theorem status_invisible (cfg : Cfg) (extra : List (List String)) (kvs : Kvs) (v : J)
-    (hx : ExtraAvoids "status" extra) :
+    (hx : ∀ f, f ∈ extra → resolveE (.obj (J.insert "status" v kvs)) f = resolveE (.obj kvs) f) :
     essence cfg extra (.obj (J.insert "status" v kvs)) = essence cfg extra (.obj kvs) :=
-  essence_congr cfg (sameView_insert_status kvs v extra hx)
+  essence_congr cfg (sameView_insert_status' kvs v extra hx)
 
 theorem status_removal_invisible (cfg : Cfg) (extra : List (List String)) (kvs : Kvs)
-    (hx : ExtraAvoids "status" extra) :
+    (hx : ∀ f, f ∈ extra → resolveE (.obj (erase "status" kvs)) f = resolveE (.obj kvs) f) :
     essence cfg extra (.obj (erase "status" kvs)) = essence cfg extra (.obj kvs) :=
-  essence_congr cfg (sameView_erase_status kvs extra hx)
+  essence_congr cfg (sameView_erase_status' kvs extra hx)
+
+/-- instance: a handler on `status.phase`, kopf's own progress/touch under `status.kopf`. -/
+example : ∀ f, f ∈ [["status", "phase"]] →
+    resolveE (.obj (J.insert "status" (.obj [("phase", .str "Running"), ("kopf", .obj [("dummy", .str "2020")])])
+      [("spec", .obj []), ("status", .obj [("phase", .str "Running")])])) f =
+    resolveE (.obj [("spec", .obj []), ("status", .obj [("phase", .str "Running")])]) f := by
+  intro f hf; simp at hf; subst hf; rfl
 
 /-- **System metadata and finalizers never count**: replacing `metadata` by any mapping `m'` that has
     the same `labels`, `annotations` and `ownerReferences` (so: any change of resourceVersion,
@@ -208,13 +221,91 @@ example : ∀ kv, kv ∈ [("my-op.example.com/create_fn", J.str "{}"), ("my-op.e
   simp only [List.mem_cons, List.mem_nil_iff, or_false] at h
   rcases h with rfl | rfl <;> decide
 
-/-- the marker matters: the *first* write under a custom, not yet marked prefix removes a foreign
-    annotation squatting under that prefix from the essence (documented assumption: the operator's
-    prefix is reserved for the operator). -/
+/-! ## what a Kopf annotations storage writes -/
+
+/-- **The writes of a Kopf annotations storage are invisible to every Kopf operator** (own and other:
+    no self-trigger through another operator, no ping-pong) — *if* the storage's prefix `P` gets the
+    `kopf-managed` marker or is recognised by itself. `A'` is the annotation mapping after the write:
+    it agrees with `A` off the prefix, and the marker is there (`storeMarker_ensures`: `_store_marker`
+    guarantees it exactly when `writesMarker P`, i.e. `P` does not start with `kopf.`).
+    Full clause — "for every prefix" — is FALSE: `kopf_prefix_unmarked_witness` (finding C04-N1). -/
+theorem kopf_storage_write_invisible_partial (cfg : Cfg) (extra : List (List String)) (kvs m A A' : Kvs) (P : String)
+    (hm : lookup "metadata" kvs = some (.obj m)) (ha : lookup "annotations" m = some (.obj A))
+    (hP : '/' ∉ P.toList) (hd : AgreeOffPrefix P.toList A' A)
+    (hA : GroupDropped P.toList A)
+    (hmark : markerKey P ∈ keys A' ∨ knownish P.toList = true) (hx : ExtraAnnOK extra) :
+    essence cfg extra (.obj (withAnn kvs m A')) = essence cfg extra (.obj kvs) :=
+  prefix_group_invisible cfg extra kvs m A A' P.toList hm ha hd hA (groupDropped_of_marker hP hmark) hx
+
+/-- `_store_marker` puts the marker into the patch (unless the body has it) exactly when the prefix
+    does not start with `kopf.`. -/
+theorem store_marker_spec (P : String) (bodyAnn patchAnn : Kvs) :
+    (writesMarker P = true → markerKey P ∈ keys bodyAnn ∨ markerKey P ∈ keys (storeMarker P bodyAnn patchAnn)) ∧
+    (writesMarker P = false → storeMarker P bodyAnn patchAnn = patchAnn) :=
+  ⟨storeMarker_ensures bodyAnn patchAnn, storeMarker_silent bodyAnn patchAnn⟩
+
+def bodyWithAnn (anns : List (String × J)) : J :=
+  .obj [("kind", .str "KopfExample"), ("metadata", .obj [("name", .str "obj"), ("annotations", .obj anns)]),
+        ("spec", .obj [("a", .num 1)])]
+
+def cfgDefault0 : Cfg :=
+  ⟨.leaf (.annotations "kopf.zalando.org" "last-handled-configuration" true []),
+   [.annotations "kopf.zalando.org", .status ["status", "kopf", "progress"]], hashes0⟩
+
+def diffLen0 (x y : Except Err J) : Option Nat :=
+  match x, y with
+  | .ok e, .ok e' => some (diff e e' []).length
+  | _, _ => none
+
+/-- C04-N1: a Kopf operator with prefix `kopf.dev` gets no marker (`_store_marker` skips prefixes
+    starting with `kopf.`), `kopf.dev` is not recognised by itself, and its touch-dummy is an essential
+    change for the default-configured operator; the same write under `my-op.example.com` (marker
+    written along) is not. -/
+theorem kopf_prefix_unmarked_witness :
+    keys (storeMarker "kopf.dev" [("note", .str "u")] [("kopf.dev/touch-dummy", .str "2020")]) = ["kopf.dev/touch-dummy"]
+    ∧ knownish "kopf.dev".toList = false
+    ∧ diffLen0 (essence cfgDefault0 [] (bodyWithAnn [("note", .str "u")]))
+        (essence cfgDefault0 [] (bodyWithAnn [("note", .str "u"), ("kopf.dev/touch-dummy", .str "2020")])) = some 1
+    ∧ diffLen0 (essence cfgDefault0 [] (bodyWithAnn [("note", .str "u")]))
+        (essence cfgDefault0 [] (bodyWithAnn ([("note", .str "u")] ++
+          storeMarker "my-op.example.com" [("note", .str "u")] [("my-op.example.com/touch-dummy", .str "2020")]))) = some 0 := by
+  decide
+
+/-- C04-F11, the marker matters the other way round too: the *first* write under a custom, not yet
+    marked prefix removes a user's annotation under that prefix from the essence — the operator's own
+    write is an essential change (once). -/
 theorem marker_first_write_witness :
-    let keep (A : Kvs) := keys (A.filter (fun kv => keepAnnotation (markedPrefixes (keys A)) kv.1))
-    keep [("my-op.example.com/user", .str "x")] = ["my-op.example.com/user"]
-    ∧ keep [("my-op.example.com/user", .str "x"), ("my-op.example.com/kopf-managed", .str "yes")] = [] := by
+    diffLen0 (essence cfgDefault0 [] (bodyWithAnn [("my-op.example.com/user-option", .str "x")]))
+      (essence cfgDefault0 [] (bodyWithAnn ([("my-op.example.com/user-option", .str "x")] ++
+        storeMarker "my-op.example.com" [("my-op.example.com/user-option", .str "x")]
+          [("my-op.example.com/touch-dummy", .str "2020")]))) = some 1 := by
+  decide
+
+/-- C04-N2: adoption. Adding a Deployment owner to a handled ReplicaSet leaves the essence unchanged
+    but switches the annotation names to `-ofDRS`: the stored last-handled state is not found any more
+    (`fetch` gives `None` → the object is handled as created again). -/
+theorem adoption_loses_last_handled_witness :
+    let anns := [("kopf.zalando.org/last-handled-configuration", J.str "{}")]
+    let rs (owners : List (String × J)) : J :=
+      .obj [("kind", .str "ReplicaSet"), ("metadata", .obj ([("name", .str "rs"), ("annotations", .obj anns)] ++ owners)),
+            ("spec", .obj [("replicas", .num 1)])]
+    let adopted := rs [("ownerReferences", .arr [.obj [("kind", .str "Deployment")]])]
+    diffLen0 (essence cfgDefault0 [] (rs [])) (essence cfgDefault0 [] adopted) = some 0
+    ∧ ((keysFor hashes0 true "kopf.zalando.org" "last-handled-configuration" (rs [])).toOption.bind
+        (fun ks => fetchRaw ks anns)).isSome = true
+    ∧ ((keysFor hashes0 true "kopf.zalando.org" "last-handled-configuration" adopted).toOption.bind
+        (fun ks => fetchRaw ks anns)).isSome = false := by
+  decide
+
+/-- C04-N3: `StatusProgressStorage.clear` removes the progress `field` only; a touch field outside
+    `status` (here `kopf.dummy`, progress under `kopf.progress`) stays in the essence: the framework's
+    own touch is an essential change. -/
+theorem touch_field_witness :
+    let cfg : Cfg := ⟨.leaf (.annotations "kopf.zalando.org" "last-handled-configuration" true []),
+      [.status ["kopf", "progress"]], hashes0⟩
+    diffLen0 (essence cfg [] (.obj [("metadata", .obj [("name", .str "x")]), ("spec", .obj [("a", .num 1)])]))
+      (essence cfg [] (.obj [("metadata", .obj [("name", .str "x")]), ("spec", .obj [("a", .num 1)]),
+        ("kopf", .obj [("dummy", .str "2020")])])) = some 1 := by
   decide
 
 /-! ## the essence: what does count -/
@@ -344,6 +435,8 @@ example : Ordinary "example.com/owner" [("example.com/owner", .str "me"), ("kopf
     is the answer a fresh storage gives for that object alone — in particular a ReplicaSet owned by a
     Deployment gets its `-ofDRS` names whether or not the Deployment was served before it. The real
     storages are tied to this by the shared-instance sequence runs of the harness. -/
+/- not counted as a property theorem: `serveSeq` is a `map`, the statement is definitional; the
+   content is the shared-instance tie of the harness. -/
 theorem keys_depend_only_on_body (h : Hashes) (v1 : Bool) (prefix_ key : String) (before after : List J) (b : J) :
     (serveSeq h v1 prefix_ key (before ++ b :: after))[before.length]? = some (keysFor h v1 prefix_ key b) := by
   simp [serveSeq]
@@ -365,7 +458,10 @@ example : (keysFor hashes0 true "kopf.zalando.org" "last-handled-configuration"
     the diff of the two essences is empty (no re-trigger), although the prefix is not marked
     (`markedPrefix? k0 = none`: no `kopf-managed` marker yet, or a `kopf.*` prefix for which none is
     ever written). The object has a `kind` and an annotations mapping; `MetaPlain` as above. -/
-theorem own_key_unmarked_invisible (cfg : Cfg) (extra : List (List String)) (kvs m A A' : Kvs)
+/- Guarded (`_partial` by the DESIGN convention): `hk` (the body has a `kind`) and `ha` (the
+   annotations mapping exists before the write) are proof artefacts, not gaps of the code — the model
+   evaluates to an empty diff without them on every case tried; the unguarded statement is not proved. -/
+theorem own_key_unmarked_invisible_partial (cfg : Cfg) (extra : List (List String)) (kvs m A A' : Kvs)
     (k0 : String) (kd : J) (e e' : J) (hplain : MetaPlain cfg extra)
     (hk : lookup "kind" kvs = some kd) (hm : lookup "metadata" kvs = some (.obj m))
     (ha : lookup "annotations" m = some (.obj A)) (hd : AgreeOffKey k0 A' A) (hmark : markedPrefix? k0 = none)
